@@ -1616,12 +1616,17 @@ mod reent {
         #[allow(dead_code)]
         pub id: u32,
         pub inner: Option<Inner>,
+        /// the destructor panics (after it has been counted)
+        pub bomb: bool,
     }
     impl Drop for RMsg {
         fn drop(&mut self) {
             DROPS.fetch_add(1, SeqCst);
             if let Some(Inner::Probe(s)) = &self.inner {
                 let _ = (s.len(), s.is_closed(), s.receiver_count());
+            }
+            if self.bomb {
+                panic!("destructor of message {} panics", self.id);
             }
             // the handle inside (if any) is dropped right after this body: Drop for Sender/Receiver locks the channel
         }
@@ -1635,11 +1640,147 @@ mod reent {
             3 => Inner::AR(r.clone_async()),
             _ => Inner::Probe(s.clone()),
         };
-        RMsg { id, inner: Some(inner) }
+        RMsg { id, inner: Some(inner), bomb: false }
     }
     pub fn drops() -> u64 {
         DROPS.load(SeqCst)
     }
+    pub fn bomb(id: u32) -> RMsg {
+        RMsg { id, inner: None, bomb: true }
+    }
+    pub fn dud(id: u32) -> RMsg {
+        RMsg { id, inner: None, bomb: false }
+    }
+}
+
+/// Destructors that panic (drop bombs, guards that assert in `Drop`): wherever the channel destroys such a value on
+/// the caller's behalf the panic travels through the channel call; the program survives it (catch_unwind here, a
+/// task boundary or a dying thread elsewhere) and carries on: drops the future, uses and drops the handles. Each
+/// value must still have been destroyed exactly once, and the channel must still answer.
+fn panicking_destructors(stats: &mut (u64, u64)) -> Result<(), String> {
+    use reent::*;
+    let cell = WakeCell::new(2, None);
+    let w = waker_of(&cell);
+    let call = |what: String| {
+        BEAT.fetch_add(1, std::sync::atomic::Ordering::Relaxed);
+        if let Ok(mut l) = CUR_CALL.lock() {
+            *l = (0, what);
+        }
+    };
+    // runs `f`, which may panic; returns what it returned (or "panicked") and checks the number of destructor runs
+    macro_rules! step {
+        ($desc:expr, $e:expr, $drops:expr) => {{
+            let d0 = drops();
+            let desc: String = $desc;
+            call(desc.clone());
+            let got = match catch_unwind(AssertUnwindSafe(|| format!("{:?}", $e))) {
+                Ok(s) => s,
+                Err(_) => "panicked".to_string(),
+            };
+            stats.1 += 1;
+            let dd = drops() - d0;
+            if dd != $drops {
+                return Err(format!("{}: the call ended with {} and {} destructor run(s) had happened, the reference channel says {}", desc, got, dd, $drops));
+            }
+            got
+        }};
+    }
+    for cap in [Some(1usize), Some(3), None, Some(0)] {
+        let capn = cap_name(cap);
+        let ctx = |c: &str| format!("panicking destructor, capacity {}: {}", capn, c);
+        let new = || match cap {
+            None => kanal::unbounded::<RMsg>(),
+            Some(c) => kanal::bounded::<RMsg>(c),
+        };
+        stats.0 += 1;
+        // refused / timed-out sends on a full buffer, futures on a full buffer
+        if let Some(c) = cap {
+            let (s, r) = new();
+            let a_s = s.clone_async();
+            for i in 0..c {
+                step!(ctx("try_send (fill)"), s.try_send(dud(i as u32)).map_err(|_| ()), 0);
+            }
+            step!(ctx("try_send refused: the value is destroyed inside the call"), s.try_send(bomb(20)).map_err(|_| ()), 1);
+            step!(ctx("try_send_realtime refused"), s.try_send_realtime(bomb(21)).map_err(|_| ()), 1);
+            step!(ctx("send_timeout(0) timing out"), s.send_timeout(bomb(22), Duration::ZERO).map_err(|e| format!("{:?}", e)), 1);
+            {
+                let mut f = Box::pin(a_s.send(bomb(23)));
+                let mut cx = Context::from_waker(&w);
+                step!(ctx("polling a send future on the full channel"), f.as_mut().poll(&mut cx).map_err(|_| ()), 0);
+                step!(ctx("dropping the pending send future"), drop(f), 1);
+            }
+            {
+                let mut f = Box::pin(a_s.send(bomb(24)));
+                let mut cx = Context::from_waker(&w);
+                step!(ctx("polling a send future on the full channel"), f.as_mut().poll(&mut cx).map_err(|_| ()), 0);
+                step!(ctx("close() with duds buffered and a pending send future"), r.close().map_err(|_| ()), c as u64);
+                step!(ctx("polling the send future released by close(): its value is destroyed inside poll"), f.as_mut().poll(&mut cx).map_err(|e| format!("{:?}", e)), 1);
+                step!(ctx("dropping that send future afterwards"), drop(f), 0);
+            }
+            step!(ctx("is_closed() afterwards"), s.is_closed(), 0);
+        }
+        // sends on a closed / half-closed channel
+        for half in [false, true] {
+            let (s, r) = new();
+            let a_s = s.clone_async();
+            let how = if half { "after the last receiver was dropped" } else { "after close()" };
+            if half {
+                step!(ctx("dropping the only receiver"), drop(r), 0);
+            } else {
+                step!(ctx("close()"), r.close().map_err(|_| ()), 0);
+            }
+            step!(ctx(&format!("try_send {}", how)), s.try_send(bomb(30)).map_err(|e| format!("{:?}", e)), 1);
+            step!(ctx(&format!("send {}", how)), s.send(bomb(31)).map_err(|e| format!("{:?}", e)), 1);
+            step!(ctx(&format!("send_timeout {}", how)), s.send_timeout(bomb(32), Duration::from_millis(1)).map_err(|e| format!("{:?}", e)), 1);
+            let mut o = Some(bomb(33));
+            step!(ctx(&format!("send_option_timeout {} (hands the value back)", how)), s.send_option_timeout(&mut o, Duration::ZERO).map_err(|e| format!("{:?}", e)), 0);
+            step!(ctx("dropping the value handed back"), drop(o.take()), 1);
+            {
+                let mut f = Box::pin(a_s.send(bomb(34)));
+                let mut cx = Context::from_waker(&w);
+                step!(ctx(&format!("first poll of a send future {}: its value is destroyed inside poll", how)), f.as_mut().poll(&mut cx).map_err(|e| format!("{:?}", e)), 1);
+                step!(ctx("dropping that send future afterwards"), drop(f), 0);
+            }
+            {
+                let f = Box::pin(a_s.send(bomb(35)));
+                step!(ctx(&format!("dropping a never-polled send future {}", how)), drop(f), 1);
+            }
+            step!(ctx("sender_count() afterwards"), s.sender_count() > 0 || !half, 0);
+        }
+        // close() and the last handle going away with a bomb in the buffer (one bomb only: a second panic while
+        // unwinding would abort the process, which is the language's rule, not the channel's)
+        if cap != Some(0) {
+            for last_handle in [false, true] {
+                let (s, r) = new();
+                let n = cap.unwrap_or(3).min(3);
+                for i in 0..n {
+                    step!(ctx("try_send (fill)"), s.try_send(if i == n / 2 { bomb(40) } else { dud(41 + i as u32) }).map_err(|_| ()), 0);
+                }
+                if last_handle {
+                    step!(ctx("dropping the only sender"), drop(s), 0);
+                    step!(ctx(&format!("dropping the last handle with {} buffered values, one of them a bomb", n)), drop(r), n as u64);
+                } else {
+                    step!(ctx(&format!("close() with {} buffered values, one of them a bomb", n)), s.close().map_err(|_| ()), n as u64);
+                    step!(ctx("is_closed() afterwards"), r.is_closed(), 0);
+                    step!(ctx("try_recv afterwards"), r.try_recv().map(|x| x.is_some()).map_err(|e| format!("{:?}", e)), 0);
+                    step!(ctx("dropping the handles"), drop((s, r)), 0);
+                }
+            }
+        }
+        // a receive future served by hand-off and dropped unpolled
+        {
+            let (s, r) = new();
+            let a_r = r.clone_async();
+            let mut f = Box::pin(a_r.recv());
+            let mut cx = Context::from_waker(&w);
+            step!(ctx("polling a receive future on the empty channel"), f.as_mut().poll(&mut cx).map(|x| x.is_ok()), 0);
+            step!(ctx("try_send into the waiting receive future"), s.try_send(bomb(50)).map_err(|_| ()), 0);
+            step!(ctx("dropping the receive future that holds the delivered bomb"), drop(f), 1);
+            step!(ctx("try_send afterwards"), s.try_send(dud(51)).map_err(|_| ()), if cap == Some(0) { 1 } else { 0 });
+            step!(ctx("dropping the handles"), drop((s, r, a_r)), if cap == Some(0) { 0 } else { 1 });
+        }
+    }
+    Ok(())
 }
 
 fn reentrant_payloads(stats: &mut (u64, u64)) -> Result<(), String> {
@@ -2068,6 +2209,14 @@ fn main() {
             report("reentrant", None, false, &[], &(e, vec!["seqdiff --depth 0 --random 0 --bigfill q".to_string()]), &mut out);
         }
     }
+    let mut bomb_stats = (0u64, 0u64);
+    if !bigfill.is_empty() && nviol < stop_after {
+        if let Err(e) = panicking_destructors(&mut bomb_stats) {
+            nviol += 1;
+            report("reentrant", None, false, &[], &(e, vec!["seqdiff --depth 0 --random 0 --bigfill q".to_string()]), &mut out);
+        }
+    }
+    out.set("panicking_destructor_calls", J::U(bomb_stats.1));
     out.set("reentrant_payload_configurations", J::U(reent_stats.0));
     out.set("reentrant_payload_calls", J::U(reent_stats.1));
     let mut handle_stats = (0u64, 0u64);
